@@ -1,3 +1,11 @@
+import TantivyModel.Proofs.SSTable.FileKey
+import TantivyModel.Proofs.SSTable.WriterStoreOk
+import TantivyModel.Proofs.SSTable.FileWritten
+import TantivyModel.Proofs.SSTable.FileOrd
+import TantivyModel.Proofs.SSTable.WriterFull
+import TantivyModel.Proofs.SSTable.SearchLim
+import TantivyModel.Proofs.SSTable.BestSlope
+import TantivyModel.Proofs.SSTable.Separators
 import TantivyModel.Proofs.SSTable.StoreLocate
 import TantivyModel.Proofs.SSTable.StoreFile
 import TantivyModel.Proofs.SSTable.SearchOrd
@@ -330,10 +338,17 @@ theorem C15_inverted_range_counterexample :
       (build 0 [(([1] : Key), 10), ([2], 20), ([3], 30)]).stream (.incl [3]) (.excl [1]) none = some []) ∧
     range [(([1] : Key), 10), ([2], 20), ([3], 30)] (.incl [3]) (.excl [1]) = [] := by decide
 
-/- Still to prove (full statements; the harness compares these operations on every run):
-   C15_merge_round_tables     : the per-round tables `kmergeOrds` (mirror of TermMerger::advance +
-                                matching_segments) list, for input i, exactly the pairs
-                                (new ordinal, old ordinal) of `ordMap` (C15_term_ordinal_remap) -/
+/- open (stated contracts / run-only, nothing in this file depends on them as axioms):
+   * tantivy-fst internals: the separator lookup is proved against `FstContract` (C15_fst_locate,
+     C15_file_block_for_key); the harness compares the real fst-backed index on every dictionary.
+   * zstd block compression and the construction of Levenshtein/regex automata: run-only.
+   * `ord_to_term`, `get_block_with_key`, `term_ord_or_next`, `term_ord`, `get` are composed down to
+     the bytes of a whole file (C15_file_ord_to_term_written_store, C15_void_file_ord_to_term,
+     C15_file_block_for_key, C15_file_term_ord, C15_file_get, C15_small_file_*); streams, automaton
+     search and merge are proved on the block model / front-coded entries (C15_ops_refine_range,
+     C15_automaton_stream, C15_streamer_state_stack, C15_merge), not composed down to file bytes.
+   * that `Writer` passes exactly `frameAddrs` to the index builder, and that the store region
+     stays below 2^64 bytes, are hypotheses of the file-level theorems. -/
 
 example : kwayMerge List.sum [[(([1] : Key), 1), ([3], 3)], [([2], 20), ([3], 30)], []]
     = [([1], 1), ([2], 20), ([3], 33)] := by decide
@@ -891,6 +906,144 @@ example : (openStore (storeBytes [⟨100, 5, 10, 3, ⟨0, 0, 90⟩, [⟨9, 90, 2
     (openStore (storeBytes [⟨100, 5, 10, 3, ⟨0, 0, 90⟩, [⟨9, 90, 200⟩], 200⟩])).locateOrd 8 = 0 ∧
     allOrds [⟨100, 5, 10, 3, ⟨0, 0, 90⟩, [⟨9, 90, 200⟩], 200⟩] = [0, 9] := by decide
 
+/-! ## round 2: FST contract, merged dictionaries -/
+
+/-- the keys `SSTableIndexBuilder::serialize` inserts into `tantivy_fst::MapBuilder` — the
+(shortened) separators of the dictionary built from any sorted map at any block length — are
+strictly increasing, which is what the FST builder requires -/
+theorem C15_separators_strictly_increasing {V} (blockLen : Nat) (m : Assoc V) (hs : SortedMap m) :
+    StrictInc ((build blockLen m).blocks.map (·.sep)) :=
+  build_seps_strictInc blockLen m hs
+
+/-- tantivy-fst as a stated contract (`FstContract`: built from strictly increasing keys;
+`range().ge(k).next()` = first entry with key ≥ k): `locate_with_key` through ANY such FST built
+from the dictionary's separators is the routing of `C15_block_routing`, so every operation theorem
+holds for the fst-backed index -/
+theorem C15_fst_locate {V} (blockLen : Nat) (m : Assoc V) (f : FstIndex) (hf : FstContract f)
+    (hkeys : f.keys = (build blockLen m).blocks.map (·.sep))
+    (hmulti : (build blockLen m).single = false) (k : Key) :
+    f.geFirst k = (build blockLen m).locateKey k :=
+  fst_locate blockLen m f hf hkeys hmulti k
+
+theorem C15_get_map_keys {V} (ks : List Key) (f : Key → V) (k : Key) :
+    SSTable.get (ks.map (fun x => (x, f x))) k = if k ∈ ks then some (f k) else none := by
+  induction ks with
+  | nil => rfl
+  | cons a rest ih =>
+    unfold SSTable.get at ih ⊢
+    rw [List.map_cons, List.find?_cons]
+    by_cases h : a = k
+    · subst h; simp
+    · have : (a == k) = false := by simpa using h
+      simp only [this, Bool.false_eq_true, if_false, ih, List.mem_cons]
+      have hne : ¬ k = a := fun e => h e.symm
+      simp [hne]
+
+/-- merge end to end: the dictionary written from the k-way merge of sorted inputs (any block
+length) answers as the merged map — a key is found iff some input holds it, with the combined
+value; every entry of every input is found at its remapped ordinal; ordinals map back to the
+merged keys -/
+theorem C15_merged_dictionary {V} (comb : List V → V) (ms : List (Assoc V))
+    (hs : ∀ m ∈ ms, SortedMap m) (blockLen : Nat) :
+    (∀ k, (build blockLen (kwayMerge comb ms)).get k
+      = if k ∈ unionKeys (ms.map keys) then some (comb (ms.filterMap (fun m => SSTable.get m k))) else none) ∧
+    (∀ m ∈ ms, ∀ e ∈ m, (build blockLen (kwayMerge comb ms)).termOrd e.1
+      = some (ordOf (keys (mergeSpec comb ms)) e.1)) ∧
+    (∀ o, (build blockLen (kwayMerge comb ms)).ordToTerm o = ordToTerm (mergeSpec comb ms) o) := by
+  obtain ⟨heq, hsorted, _, _⟩ := C15_merge comb ms hs
+  rw [heq]
+  refine ⟨fun k => ?_, fun m hm e he => ?_, fun o => (refine_ordToTerm blockLen _ o).1⟩
+  · rw [refine_get blockLen _ hsorted k]
+    unfold mergeSpec
+    exact C15_get_map_keys _ _ k
+  · rw [refine_termOrd blockLen _ hsorted e.1]
+    have h := (C15_term_ordinal_remap comb ms hs m hm).1
+    unfold ordMap at h
+    obtain ⟨i, hidx⟩ := List.getElem?_of_mem he
+    have := congrArg (fun l => l[i]?) h
+    simp only [List.getElem?_map, hidx, Option.map_some] at this
+    exact Option.some.inj this
+
+example : (build 0 (kwayMerge List.sum [[(([1] : Key), 1), ([3], 3)], [([2], 20), ([3], 30)]])).get [3] = some 33 ∧
+    (build 0 (kwayMerge List.sum [[(([1] : Key), 1), ([3], 3)], [([2], 20), ([3], 30)]])).termOrd [2] = some 1 := by decide
+
+/-! ## round 2: `find_best_slope` mirrored -/
+
+/-- `find_best_slope` (mirrored: the "lowest"/"highest" points by integer slope, the rounded slope
+through them, `compute_num_bits(max deviation) + 1`): whatever slope the heuristic lands on, the
+width it returns is at least 1, at most 57 and covers every deviation — as long as the largest
+deviation is below the 56-bit cut-off of `compute_num_bits` -/
+theorem C15_find_best_slope_fits (els : List (Nat × Nat))
+    (h56 : numBits (maxDeviation (findBestSlope els).1 els) ≤ 56) :
+    1 ≤ (findBestSlope els).2 ∧ (findBestSlope els).2 ≤ 57 ∧
+    ∀ e ∈ els, deviation (findBestSlope els).1 e.1 e.2 < 2 ^ ((findBestSlope els).2 - 1) :=
+  (findBestSlope_fits els h56).2
+
+/-- a store block exactly as `flush_block` writes it — slopes and widths chosen by
+`find_best_slope`, fields bit-packed — returns every address through `get`; no hypothesis on
+slopes or widths is left, only monotone data and deviations below the cut-off -/
+theorem C15_written_store_block_get (ref : BlockAddr) (more : List BlockAddr) (lastStop : Nat)
+    (h : WriterGroupOk ref more lastStop) (rest : List UInt8) (i : Nat) (hi : i ≤ more.length) :
+    (groupMeta (mkGroup ref more lastStop).rs (mkGroup ref more lastStop).rb (mkGroup ref more lastStop).os
+        (mkGroup ref more lastStop).ob ref more).get ((mkGroup ref more lastStop).bytes ++ rest) i
+      = some ⟨((ref :: more).getD i ref).firstOrd, ((ref :: more).getD i ref).start,
+              startAt more lastStop i⟩ :=
+  group_get_tail _ _ _ _ ref more lastStop (mkGroup_fits ref more lastStop h) rest i hi
+
+example : (findBestSlope (rangeEls ⟨7, 1000, 1090⟩ [⟨16, 1090, 1200⟩, ⟨27, 1200, 1310⟩] 1310)).1 = 100 ∧
+    (findBestSlope (ordEls ⟨7, 1000, 1090⟩ [⟨16, 1090, 1200⟩, ⟨27, 1200, 1310⟩])).1 = 10 ∧
+    maxDeviation 100 (rangeEls ⟨7, 1000, 1090⟩ [⟨16, 1090, 1200⟩, ⟨27, 1200, 1310⟩] 1310) = 10 := by decide
+
+/-! ## round 2: every stream parameter at once -/
+
+/-- `StreamerBuilder::into_stream` with lower bound, upper bound, limit AND automaton set, for every
+automaton with sound `can_match` (and, when it declares `will_always_match` at its start state,
+really accepting everything): the streamed keys/values are a prefix of `search A m lo hi`; they are
+all of it when there is no limit or the automaton does not always match (the limit is then
+ignored by the code); with a limit `l` at least `min l |search|` entries come out. The call fails
+only on the always-match path, without the inverted-range guard, and then the result is empty. -/
+theorem C15_stream_all_parameters {σ V} (A : Automaton σ) (hA : A.CanMatchSound) (wam : Bool)
+    (hwam : wam = true → ∀ k, A.accepts k = true) (blockLen : Nat) (m : Assoc V) (hs : SortedMap m)
+    (lo hi : Bound) (limit : Option Nat) :
+    match (build blockLen m).searchLim A wam lo hi limit with
+    | some out =>
+        out.map (fun p => (p.2.1, p.2.2)) <+: search A m lo hi ∧
+        ((limit = none ∨ wam = false) → out.map (fun p => (p.2.1, p.2.2)) = search A m lo hi) ∧
+        (∀ l, limit = some l → min l (search A m lo hi).length ≤ out.length)
+    | none => wam = true ∧ Gen.RANGE_INVERTED_GUARD ≠ 1 ∧ search A m lo hi = [] := by
+  cases hw : wam with
+  | false =>
+    have hsl : (build blockLen m).searchLim A false lo hi limit = some ((build blockLen m).search A lo hi) := by
+      unfold Dict.searchLim; simp
+    rw [hsl]
+    have heq := (C15_automaton_stream A hA blockLen m hs lo hi).1
+    simp only
+    refine ⟨by rw [heq]; exact List.prefix_refl _, fun _ => heq, fun l _ => ?_⟩
+    rw [← heq, List.length_map]; omega
+  | true =>
+    have hacc := hwam hw
+    rw [searchLim_wam _ A hacc, search_all_eq_range A hacc]
+    have h := C15_ops_refine_range blockLen m hs lo hi limit
+    cases hst : (build blockLen m).stream lo hi limit with
+    | none =>
+      rw [hst] at h
+      exact ⟨rfl, h.1, h.2.1⟩
+    | some out =>
+      rw [hst] at h
+      obtain ⟨_, hpre, hlim⟩ := h
+      simp only
+      refine ⟨hpre, ?_, ?_⟩
+      · intro hor
+        rcases hor with hn | hf
+        · subst hn; exact hlim
+        · cases hf
+      · intro l hl
+        subst hl
+        simpa using hlim
+
+example : (build 0 [(([1] : Key), 10), ([2], 20), ([3], 30)]).searchLim (prefixAutomaton [3]) false .unbounded .unbounded (some 1)
+    = some [(0, [3], 30)] := by decide +kernel
+
 /-! ## insertion order (DESIGN §8, F6) -/
 
 /-- the writer accepts a key iff it is greater than the previous one — or both are empty and the
@@ -926,6 +1079,507 @@ theorem C15_duplicate_empty_key_counterexample :
     writerAccepts 1 [[], [], [1]] = true ∧
     -- with one key per block the block-boundary assert does catch it
     writerAccepts 0 [[], []] = false := by decide
+
+/-! ## round 2: the exact set of accepted insertion sequences -/
+
+/-- FULL form of the insertion-order statement (replaces the hypothesis of
+`C15_insert_order_partial` by the exact exception): for every block length, the writer accepts a
+sequence iff every key is strictly above its predecessor — except that the `(i+1)`-th key may repeat
+an EMPTY `i`-th key as long as `i + 1 ≤ blockLen`, i.e. while the run of empty keys (one byte each)
+has not yet closed the block; once it has, the block-boundary assert rejects the next empty key.
+Nothing else is ever accepted: the known finding C15:duplicate-empty-key-accepted is the whole
+deviation from "accepted ⇔ strictly increasing". -/
+theorem C15_insert_order (blockLen : Nat) (ks : List Key) :
+    writerAccepts blockLen ks = true ↔ AdjOK blockLen 0 ks := by
+  rw [← adjFrom_none_iff, ← accepted_iff_adjFrom blockLen {} none 0 ks 0 (WInv2_init blockLen)]
+  simp [writerAccepts]
+
+/-- in particular a sequence without two leading empty keys is accepted iff strictly increasing -/
+theorem C15_insert_order_no_empty_dup (blockLen : Nat) (ks : List Key) (h : NoEmptyDup none ks) :
+    writerAccepts blockLen ks = true ↔ StrictInc ks :=
+  ⟨fun ha => (C15_insert_order_partial blockLen ks).1 ha h, (C15_insert_order_partial blockLen ks).2⟩
+
+example : AdjOK 1 0 [[], [], [1]] ∧ ¬ AdjOK 1 0 [[], [], []] ∧ ¬ AdjOK 4000 0 [[1], [1]] := by
+  simp [AdjOK, lexLt]
+example : writerAccepts 1 [[], [], []] = false ∧ writerAccepts 2 [[], [], [], [5]] = true := by decide
+
+/-! ## round 2: the width `find_best_slope` returns is minimal; locate-then-get on the store file -/
+
+/-- the width `find_best_slope` returns is not only sufficient (`C15_find_best_slope_fits`) but the
+smallest possible for the slope it chose: with one bit less, some deviation would no longer fit
+(`2 ^ (width - 2) ≤ deviation` for some element; widths carry one extra bit for the midpoint
+shift). Whenever any deviation is non-zero and below the 56-bit cut-off. -/
+theorem C15_find_best_slope_width_minimal (els : List (Nat × Nat))
+    (h56 : numBits (maxDeviation (findBestSlope els).1 els) ≤ 56)
+    (hpos : 0 < maxDeviation (findBestSlope els).1 els) :
+    (∀ e ∈ els, deviation (findBestSlope els).1 e.1 e.2 < 2 ^ ((findBestSlope els).2 - 1)) ∧
+    ∃ e ∈ els, 2 ^ ((findBestSlope els).2 - 2) ≤ deviation (findBestSlope els).1 e.1 e.2 :=
+  ⟨(findBestSlope_fits els h56).2.2.2, findBestSlope_width_minimal els h56 hpos⟩
+
+example : 0 < maxDeviation (findBestSlope (rangeEls ⟨7, 1000, 1090⟩ [⟨16, 1090, 1200⟩, ⟨27, 1200, 1310⟩] 1310)).1
+      (rangeEls ⟨7, 1000, 1090⟩ [⟨16, 1090, 1200⟩, ⟨27, 1200, 1310⟩] 1310) ∧
+    maxDeviation (findBestSlope (rangeEls ⟨7, 1000, 1090⟩ [⟨16, 1090, 1200⟩, ⟨27, 1200, 1310⟩] 1310)).1
+      (rangeEls ⟨7, 1000, 1090⟩ [⟨16, 1090, 1200⟩, ⟨27, 1200, 1310⟩] 1310) < 2 ^ 55 := by decide
+
+/-- `locate_with_ord` then `get` on the serialised block-address store, composed: for every
+well-formed store file with strictly increasing first ordinals and every ordinal at or above the
+first one, `binary_search_ord` returns a VALID block id, `get` of it reads an address whose first
+ordinal is `≤ ord`, and the address of the next block id (when there is one) starts strictly above
+`ord` — the block the dictionary then opens is the one that holds the ordinal. -/
+theorem C15_store_locate_then_get (gs : List GroupSpec) (hg : GoodStore gs) (ord : Nat)
+    (hs : (allOrds gs).Pairwise (· < ·)) (h0 : (allOrds gs).getD 0 0 ≤ ord) :
+    ∃ a, (openStore (storeBytes gs)).get ((openStore (storeBytes gs)).locateOrd ord) = some a ∧
+      a.firstOrd ≤ ord ∧
+      ∀ a', (openStore (storeBytes gs)).locateOrd ord + 1 < (allOrds gs).length →
+        (openStore (storeBytes gs)).get ((openStore (storeBytes gs)).locateOrd ord + 1) = some a' →
+        ord < a'.firstOrd := by
+  obtain ⟨h1, h2, h3⟩ := store_locate_spec gs hg ord hs h0
+  obtain ⟨a, ha, hao⟩ := store_get_valid gs hg _ h1
+  refine ⟨a, ha, by rw [hao]; exact h2, ?_⟩
+  intro a' hlt hg'
+  obtain ⟨b, hb, hbo⟩ := store_get_valid gs hg _ hlt
+  rw [hb] at hg'
+  cases hg'
+  rw [hbo]
+  exact h3 hlt
+
+example : (openStore (storeBytes [⟨100, 5, 10, 3, ⟨0, 0, 90⟩, [⟨9, 90, 200⟩], 200⟩])).get
+      ((openStore (storeBytes [⟨100, 5, 10, 3, ⟨0, 0, 90⟩, [⟨9, 90, 200⟩], 200⟩])).locateOrd 12)
+    = some ⟨9, 90, 200⟩ := by decide
+
+/-! ## round 2: `ord_to_term` on the bytes of a whole file -/
+
+/-- `Dictionary::open` + `Dictionary::ord_to_term` composed on the BYTES of a version-3 file — footer,
+index region `fst | block-address store | fst_len`, `binary_search_ord`, `get`, the byte range of
+the frame, `read_block`, value block skipped, front-coded keys decoded, the `(ord - first_ordinal)`-th
+key: for every list of non-empty strictly increasing key blocks, every payload list whose value
+blocks `skip` drops, EVERY well-formed store (`GoodStore`: any slopes/widths that fit) that lists
+one address per block — first ordinal = number of keys before the block, byte range = the frame —
+and ANY non-empty FST byte string (this operation never reads it), the reader returns exactly the
+`ord`-th key of the concatenated blocks and `Ok(false)` (`none`) past the end. -/
+theorem C15_file_ord_to_term (skip : List UInt8 → List UInt8) (blocks : List (List Key)) (ps : List (List UInt8))
+    (gs : List GroupSpec) (fst : List UInt8) (numTerms version ord : Nat)
+    (hinc : ∀ b ∈ blocks, StrictInc b) (hne : ∀ b ∈ blocks, b ≠ [])
+    (hskip : ∀ (i : Nat) p b, ps[i]? = some p → blocks[i]? = some b → skip p = encodeBlockKeys b)
+    (hlen : ps.length = blocks.length)
+    (hpsz : ∀ p ∈ ps, p ≠ [] ∧ p.length + 1 < 4294967296)
+    (hg : GoodStore gs)
+    (hcount : (allOrds gs).length = blocks.length)
+    (hAddr : ∀ (id : Nat) a, id < blocks.length → (openStore (storeBytes gs)).get id = some a →
+      a.firstOrd = ordStart blocks id ∧ a.start = frameStart ps id ∧ a.stop = frameStart ps (id + 1))
+    (hfst0 : fst.length ≠ 0) (hfst : fst.length < 18446744073709551616)
+    (hdata : (frameBlocks ps).length < 18446744073709551616)
+    (hn : numTerms < 18446744073709551616) (hv : version < 4294967296) :
+    fileOrdToTerm skip (finishFile (frameBlocks ps) (fst ++ storeBytes gs ++ u64enc fst.length) numTerms version) ord
+      = some (blocks.flatten[ord]?) :=
+  file_ord_to_term' skip blocks ps gs fst numTerms version ord hinc hne hskip hlen hpsz hg hcount hAddr
+    hfst0 hfst hdata hn hv
+
+/-- instance: the file the model writer lays out for a strictly increasing key list (`VoidSSTable`,
+any block length): `ord_to_term` on its bytes is `ks[ord]?` -/
+theorem C15_written_file_ord_to_term (blockLen : Nat) (ks : List Key) (hs : StrictInc ks)
+    (gs : List GroupSpec) (fst : List UInt8) (ord : Nat)
+    (hsize : ∀ b ∈ encodeBlocks blockLen ks, b.length + 1 < 4294967296)
+    (hg : GoodStore gs)
+    (hcount : (allOrds gs).length = (blocksOf id blockLen ks).length)
+    (hAddr : ∀ (i : Nat) a, i < (blocksOf id blockLen ks).length → (openStore (storeBytes gs)).get i = some a →
+      a.firstOrd = ordStart (blocksOf id blockLen ks) i ∧ a.start = frameStart (encodeBlocks blockLen ks) i ∧
+        a.stop = frameStart (encodeBlocks blockLen ks) (i + 1))
+    (hfst0 : fst.length ≠ 0) (hfst : fst.length < 18446744073709551616)
+    (hdata : (frameBlocks (encodeBlocks blockLen ks)).length < 18446744073709551616)
+    (hn : ks.length < 18446744073709551616) :
+    fileOrdToTerm id (finishFile (frameBlocks (encodeBlocks blockLen ks))
+        (fst ++ storeBytes gs ++ u64enc fst.length) ks.length Gen.SSTABLE_VERSION) ord = some ks[ord]? := by
+  have hfl := blocksOf_flatten (id : Key → Key) blockLen ks
+  have hall : ∀ b ∈ blocksOf id blockLen ks, StrictInc b :=
+    strictInc_of_mem_flatten (by rw [hfl]; exact hs)
+  have hne : ∀ b ∈ blocksOf id blockLen ks, b ≠ [] := cutBlocks_nonempty id blockLen [] 0 [] ks
+  have hpsz : ∀ p ∈ encodeBlocks blockLen ks, p ≠ [] ∧ p.length + 1 < 4294967296 := by
+    intro p hp
+    refine ⟨?_, hsize p hp⟩
+    unfold encodeBlocks at hp
+    obtain ⟨b, hb, rfl⟩ := List.mem_map.mp hp
+    have := encodeEntries_length_ge [] b
+    intro e
+    unfold encodeBlockKeys at e
+    rw [e] at this
+    have : b.length = 0 := by simpa using this
+    exact hne b hb (List.eq_nil_of_length_eq_zero this)
+  have h := C15_file_ord_to_term id (blocksOf id blockLen ks) (encodeBlocks blockLen ks) gs fst ks.length
+    Gen.SSTABLE_VERSION ord hall hne
+    (by
+      intro i p b hp hb
+      unfold encodeBlocks at hp
+      rw [List.getElem?_map, hb] at hp
+      simp only [Option.map_some, Option.some.injEq] at hp
+      rw [← hp]; rfl)
+    (by simp [encodeBlocks]) hpsz hg hcount hAddr hfst0 hfst hdata hn (by decide)
+  rw [h, hfl]
+
+/-- the hypotheses are satisfiable and the reader computes: a two-block file, store with one group -/
+example : fileOrdToTerm id (finishFile (frameBlocks [[16, 7], [16, 9]])
+      ([1, 2, 3] ++ storeBytes [⟨7, 5, 1, 3, ⟨0, 0, 7⟩, [⟨1, 7, 14⟩], 14⟩] ++ u64enc 3) 2 3) 1 = some (some [9]) ∧
+    fileOrdToTerm id (finishFile (frameBlocks [[16, 7], [16, 9]])
+      ([1, 2, 3] ++ storeBytes [⟨7, 5, 1, 3, ⟨0, 0, 7⟩, [⟨1, 7, 14⟩], 14⟩] ++ u64enc 3) 2 3) 2 = some none := by decide
+
+/-! ## round 2: the whole block-address store as the writer lays it out -/
+
+/-- `BlockAddrStoreWriter` (addresses buffered, a store block flushed every `STORE_BLOCK_LEN`
+addresses and at the end, reference = first buffered address, slopes and widths from
+`find_best_slope`, fields bit-packed, 36-byte metadata records with running offsets, length prefix)
+followed by `BlockAddrStore::open` + `get`: EVERY address comes back under its block id — for every
+list of addresses in which each block ends where the next starts, provided the data is monotone,
+the deviations stay below the 56-bit cut-off of `compute_num_bits` and the sizes fit the metadata
+fields (`WriterStoreOk`). The real store bytes are rebuilt from the decoded address list alone,
+byte-exactly, on every run (`rebuildStoreOk`). -/
+theorem C15_writer_store_get (addrs : List BlockAddr) (hch : Chained addrs) (hok : WriterStoreOk addrs)
+    (id : Nat) (hid : id < addrs.length) :
+    (openStore (storeBytes (writerStore addrs))).get id = addrs[id]? :=
+  writer_store_get addrs hch hok id hid
+
+/-- and `binary_search_ord` on those bytes is the abstract ordinal search over the first ordinals
+of the given addresses -/
+theorem C15_writer_store_locate_ord (addrs : List BlockAddr) (hne : addrs ≠ []) (hch : Chained addrs)
+    (hok : WriterStoreOk addrs) (ord : Nat)
+    (hs : (addrs.map (·.firstOrd)).Pairwise (· < ·)) (h0 : (addrs.map (·.firstOrd)).getD 0 0 ≤ ord) :
+    (openStore (storeBytes (writerStore addrs))).locateOrd ord
+      = ((addrs.map (·.firstOrd)).filter (fun x => decide (x ≤ ord))).length - 1 := by
+  have he : allOrds (writerStore addrs) = addrs.map (·.firstOrd) := by
+    rw [allOrds_eq_map, writerStore_addrs addrs hch]
+  have := store_locate_ord (writerStore addrs) (writerStore_good addrs hne hok) ord (by rw [he]; exact hs)
+    (by rw [he]; exact h0)
+  rw [he] at this
+  exact this
+
+/-- `C15_file_ord_to_term` with the store the writer lays out for the frame addresses: nothing is
+assumed about what `get` returns any more. Data region of framed payloads, index region
+`fst | writer store | fst_len`, footer; `ord_to_term` on these bytes is the `ord`-th key. -/
+theorem C15_file_ord_to_term_written_store (skip : List UInt8 → List UInt8) (blocks : List (List Key))
+    (ps : List (List UInt8)) (fst : List UInt8) (numTerms version ord : Nat)
+    (hinc : ∀ b ∈ blocks, StrictInc b) (hne : ∀ b ∈ blocks, b ≠ []) (hbne : blocks ≠ [])
+    (hskip : ∀ (i : Nat) p b, ps[i]? = some p → blocks[i]? = some b → skip p = encodeBlockKeys b)
+    (hlen : ps.length = blocks.length)
+    (hpsz : ∀ p ∈ ps, p ≠ [] ∧ p.length + 1 < 4294967296)
+    (hok : WriterStoreOk (frameAddrs blocks ps))
+    (hfst0 : fst.length ≠ 0) (hfst : fst.length < 18446744073709551616)
+    (hdata : (frameBlocks ps).length < 18446744073709551616)
+    (hn : numTerms < 18446744073709551616) (hv : version < 4294967296) :
+    fileOrdToTerm skip (finishFile (frameBlocks ps)
+        (fst ++ storeBytes (writerStore (frameAddrs blocks ps)) ++ u64enc fst.length) numTerms version) ord
+      = some (blocks.flatten[ord]?) :=
+  written_file_ord_to_term skip blocks ps fst numTerms version ord hinc hne hbne hskip hlen hpsz hok
+    hfst0 hfst hdata hn hv
+
+example : frameAddrs [[[1]], [[2]]] [[16, 1], [16, 2]] = [⟨0, 0, 7⟩, ⟨1, 7, 14⟩] ∧
+    Chained [⟨0, 0, 7⟩, ⟨1, 7, 14⟩] := ⟨by decide, by simp [Chained]⟩
+
+/-- the hypotheses of the writer-store theorems are satisfiable: a two-address store -/
+example : WriterStoreOk [⟨0, 0, 7⟩, ⟨1, 7, 14⟩] := by
+  have hws : writerStore [⟨0, 0, 7⟩, ⟨1, 7, 14⟩] = [mkGroup ⟨0, 0, 7⟩ [⟨1, 7, 14⟩] 14] := rfl
+  have hr56 : numBits (maxDeviation (findBestSlope (rangeEls ⟨0, 0, 7⟩ [⟨1, 7, 14⟩] 14)).1
+      (rangeEls ⟨0, 0, 7⟩ [⟨1, 7, 14⟩] 14)) ≤ 56 := numBits_le_56 _ (by decide)
+  have ho56 : numBits (maxDeviation (findBestSlope (ordEls ⟨0, 0, 7⟩ [⟨1, 7, 14⟩])).1
+      (ordEls ⟨0, 0, 7⟩ [⟨1, 7, 14⟩])) ≤ 56 := numBits_le_56 _ (by decide)
+  have hgrp : WriterGroupOk ⟨0, 0, 7⟩ [⟨1, 7, 14⟩] 14 :=
+    ⟨fun _ _ => Nat.zero_le _, fun _ _ => Nat.zero_le _, hr56, ho56⟩
+  refine ⟨by rw [hws]; decide, ?_, ?_⟩
+  · intro g hg
+    rw [hws] at hg
+    simp only [List.mem_singleton] at hg
+    subst hg
+    exact hgrp
+  · intro k g hk
+    rw [hws] at hk ⊢
+    cases k with
+    | succ j => simp at hk
+    | zero =>
+      simp only [List.getElem?_cons_zero, Option.some.injEq] at hk
+      subst hk
+      have fr := findBestSlope_fits (rangeEls ⟨0, 0, 7⟩ [⟨1, 7, 14⟩] 14) hr56
+      have fo := findBestSlope_fits (ordEls ⟨0, 0, 7⟩ [⟨1, 7, 14⟩]) ho56
+      refine ⟨by decide, by decide, by decide, by decide, by decide, ?_, ?_, by decide⟩
+      · show (findBestSlope (ordEls ⟨0, 0, 7⟩ [⟨1, 7, 14⟩])).2 < 256
+        omega
+      · show (findBestSlope (rangeEls ⟨0, 0, 7⟩ [⟨1, 7, 14⟩] 14)).2 < 256
+        omega
+
+/-- files with at most one block carry no index (`fst_len = 0`, `SSTableIndexV3Empty`): the one
+pseudo-block covers the data region and `ord_to_term` reads it; on the empty dictionary every
+ordinal is past the end -/
+theorem C15_small_file_ord_to_term (skip : List UInt8 → List UInt8) (numTerms version ord : Nat)
+    (hn : numTerms < 18446744073709551616) (hv : version < 4294967296) :
+    (∀ (b : List Key) (p : List UInt8), StrictInc b → skip p = encodeBlockKeys b → p ≠ [] →
+      p.length + 1 < 4294967296 →
+      fileOrdToTerm skip (finishFile (frameBlocks [p]) (u64enc 0) numTerms version) ord = some b[ord]?) ∧
+    fileOrdToTerm skip (finishFile (frameBlocks []) (u64enc 0) numTerms version) ord = some none :=
+  ⟨fun b p hinc hskip hp1 hp2 => single_block_file_ord_to_term skip b p numTerms version ord hinc hskip hp1 hp2 hn hv,
+   empty_file_ord_to_term skip numTerms version ord hn hv⟩
+
+/-- the file the model writer lays out for a non-empty strictly increasing key list (`VoidSSTable`,
+any block length) with the index store the writer model lays out for its frames: `ord_to_term` on
+the bytes is `ks[ord]?` — writer and reader composed, the FST bytes arbitrary -/
+theorem C15_void_file_ord_to_term (blockLen : Nat) (ks : List Key) (hs : StrictInc ks) (hks : ks ≠ [])
+    (fst : List UInt8) (ord : Nat)
+    (hsize : ∀ b ∈ encodeBlocks blockLen ks, b.length + 1 < 4294967296)
+    (hok : WriterStoreOk (frameAddrs (blocksOf id blockLen ks) (encodeBlocks blockLen ks)))
+    (hfst0 : fst.length ≠ 0) (hfst : fst.length < 18446744073709551616)
+    (hdata : (frameBlocks (encodeBlocks blockLen ks)).length < 18446744073709551616)
+    (hn : ks.length < 18446744073709551616) :
+    fileOrdToTerm id (finishFile (frameBlocks (encodeBlocks blockLen ks))
+        (fst ++ storeBytes (writerStore (frameAddrs (blocksOf id blockLen ks) (encodeBlocks blockLen ks)))
+          ++ u64enc fst.length) ks.length Gen.SSTABLE_VERSION) ord = some ks[ord]? := by
+  have hfl := blocksOf_flatten (id : Key → Key) blockLen ks
+  have hall : ∀ b ∈ blocksOf id blockLen ks, StrictInc b :=
+    strictInc_of_mem_flatten (by rw [hfl]; exact hs)
+  have hne : ∀ b ∈ blocksOf id blockLen ks, b ≠ [] := cutBlocks_nonempty id blockLen [] 0 [] ks
+  have hbne : blocksOf id blockLen ks ≠ [] := by
+    intro e; rw [e] at hfl; exact hks hfl.symm
+  have hpsz : ∀ p ∈ encodeBlocks blockLen ks, p ≠ [] ∧ p.length + 1 < 4294967296 := by
+    intro p hp
+    refine ⟨?_, hsize p hp⟩
+    unfold encodeBlocks at hp
+    obtain ⟨b, hb, rfl⟩ := List.mem_map.mp hp
+    have := encodeEntries_length_ge [] b
+    intro e
+    unfold encodeBlockKeys at e
+    rw [e] at this
+    have : b.length = 0 := by simpa using this
+    exact hne b hb (List.eq_nil_of_length_eq_zero this)
+  have h := C15_file_ord_to_term_written_store id (blocksOf id blockLen ks) (encodeBlocks blockLen ks) fst
+    ks.length Gen.SSTABLE_VERSION ord hall hne hbne
+    (by
+      intro i p b hp hb
+      unfold encodeBlocks at hp
+      rw [List.getElem?_map, hb] at hp
+      simp only [Option.map_some, Option.some.injEq] at hp
+      rw [← hp]; rfl)
+    (by simp [encodeBlocks]) hpsz hok hfst0 hfst hdata hn (by decide)
+  rw [h, hfl]
+
+example : fileOrdToTerm id (finishFile (frameBlocks [[16, 7, 17, 9]]) (u64enc 0) 2 3) 1 = some (some [7, 9]) ∧
+    fileOrdToTerm id (finishFile (frameBlocks []) (u64enc 0) 0 3) 0 = some none := by decide
+
+/-- the 56-bit cut-off of `compute_num_bits` (beyond which `find_best_slope` would return a width
+of 65 and the store block would be corrupt) is never reached: for block addresses that chain, with
+non-negative byte ranges, non-decreasing first ordinals and offsets/ordinals below 2^55 (a 32 PiB
+file), every store block the writer flushes satisfies all conditions of `C15_writer_store_get` —
+the slope is a `u32`, indices are at most 129, so every deviation is below 2^55. Only the size of
+the store region itself (records and packed data below 2^64 bytes) is left as a hypothesis. -/
+theorem C15_writer_store_ok (addrs : List BlockAddr) (hch : Chained addrs)
+    (hle : ∀ a ∈ addrs, a.start ≤ a.stop)
+    (hsmall : ∀ a ∈ addrs, a.stop < 2 ^ 55 ∧ a.firstOrd < 2 ^ 55)
+    (hmono : (addrs.map (·.firstOrd)).Pairwise (· ≤ ·))
+    (hsize : META_SIZE * (writerStore addrs).length < 2 ^ 64)
+    (hoff : ∀ k, offsetOf (writerStore addrs) k < 2 ^ 64) : WriterStoreOk addrs :=
+  writerStoreOk_of_small addrs hch hle hsmall hmono hsize hoff
+
+/-- hence writer ∘ reader is the identity on the address list under plain size bounds -/
+theorem C15_writer_store_get_small (addrs : List BlockAddr) (hch : Chained addrs)
+    (hle : ∀ a ∈ addrs, a.start ≤ a.stop)
+    (hsmall : ∀ a ∈ addrs, a.stop < 2 ^ 55 ∧ a.firstOrd < 2 ^ 55)
+    (hmono : (addrs.map (·.firstOrd)).Pairwise (· ≤ ·))
+    (hsize : META_SIZE * (writerStore addrs).length < 2 ^ 64)
+    (hoff : ∀ k, offsetOf (writerStore addrs) k < 2 ^ 64) (id : Nat) (hid : id < addrs.length) :
+    (openStore (storeBytes (writerStore addrs))).get id = addrs[id]? :=
+  writer_store_get addrs hch (writerStoreOk_of_small addrs hch hle hsmall hmono hsize hoff) id hid
+
+example : maxDeviation (findBestSlope (rangeEls ⟨0, 0, 7⟩ [⟨1, 7, 14⟩] 14)).1 (rangeEls ⟨0, 0, 7⟩ [⟨1, 7, 14⟩] 14) < 2 ^ 56 ∧
+    (findBestSlope (rangeEls ⟨0, 0, 7⟩ [⟨1, 7, 14⟩] 14)).1 < 4294967296 ∧
+    META_SIZE * (writerStore [⟨0, 0, 7⟩, ⟨1, 7, 14⟩]).length < 2 ^ 64 := by decide
+
+/-! ## round 2: `get_block_with_key` on file bytes, tantivy-fst as a stated contract -/
+
+/-- `SSTableIndex::get_block_with_key` on the bytes of a version-3 file whose index region is
+`fst | written store | fst_len`: for EVERY FST answer function that meets the stated tantivy-fst
+contract on the separators of the dictionary built from `m`, and the store the writer lays out
+for any chained address list with one address per block, the address returned for a key is the
+recorded address of the block the separator routing selects (`C15_block_routing`: the unique
+block that can hold the key), `none` past the last separator. The real index (tantivy-fst + store)
+is compared with this composition on every generated dictionary. -/
+theorem C15_file_block_for_key {V} (blockLen : Nat) (m : Assoc V) (f : FstIndex) (hf : FstContract f)
+    (hkeys : f.keys = (build blockLen m).blocks.map (·.sep)) (hmulti : (build blockLen m).single = false)
+    (addrs : List BlockAddr) (hch : Chained addrs) (hok : WriterStoreOk addrs)
+    (hcount : addrs.length = (build blockLen m).blocks.length)
+    (data fst : List UInt8) (numTerms version : Nat)
+    (hfst0 : fst.length ≠ 0) (hfst : fst.length < 18446744073709551616)
+    (hdata : data.length < 18446744073709551616)
+    (hn : numTerms < 18446744073709551616) (hv : version < 4294967296) (k : Key) :
+    fileBlockForKey f.geFirst
+        (openFile (finishFile data (fst ++ storeBytes (writerStore addrs) ++ u64enc fst.length) numTerms version)) k
+      = ((build blockLen m).locateKey k).bind (fun id => addrs[id]?) :=
+  file_block_for_key blockLen m f hf hkeys hmulti addrs hch hok hcount data fst numTerms version
+    hfst0 hfst hdata hn hv k
+
+example : fileBlockForKey (fun _ => some 1) (openFile (finishFile (frameBlocks [[16, 7], [16, 9]])
+      ([1, 2, 3] ++ storeBytes [⟨7, 5, 1, 3, ⟨0, 0, 7⟩, [⟨1, 7, 14⟩], 14⟩] ++ u64enc 3) 2 3)) [8]
+    = some ⟨1, 7, 14⟩ := by decide
+
+/-- `Dictionary::term_ord_or_next` and `Dictionary::term_ord` composed down to the BYTES of a whole
+written file with several blocks — footer, index region `fst | written store | fst_len`, FST answer
+(stated contract), `get_block`, byte range of the frame, `read_block`, value block skipped,
+front-coded keys decoded, `decode_up_to_or_next`, ordinal shifted by the block's first ordinal:
+for every sorted map, block length, value codec whose value blocks `skip` drops, and every FST
+meeting the contract on the separators, `term_ord_or_next` on the bytes is the operation of the
+block model (which `C15_ops_refine_term_ord_or_next` ties to the specification) and `term_ord` on
+the bytes IS the specification `termOrd m k`. -/
+theorem C15_file_term_ord {V} (blockLen : Nat) (m : Assoc V) (hs : SortedMap m) (f : FstIndex)
+    (hf : FstContract f) (hkeys : f.keys = (build blockLen m).blocks.map (·.sep))
+    (hmulti : (build blockLen m).single = false)
+    (skip : List UInt8 → List UInt8) (ps : List (List UInt8))
+    (hlen : ps.length = (build blockLen m).blocks.length)
+    (hskip : ∀ (i : Nat) p b, ps[i]? = some p → (build blockLen m).blocks[i]? = some b →
+      skip p = encodeBlockKeys (keys b.entries))
+    (hpsz : ∀ p ∈ ps, p ≠ [] ∧ p.length + 1 < 4294967296)
+    (hok : WriterStoreOk (frameAddrs (keyBlocks (build blockLen m)) ps))
+    (fst : List UInt8) (numTerms version : Nat)
+    (hfst0 : fst.length ≠ 0) (hfst : fst.length < 18446744073709551616)
+    (hdata : (frameBlocks ps).length < 18446744073709551616)
+    (hn : numTerms < 18446744073709551616) (hv : version < 4294967296) (k : Key) :
+    fileTermOrdOrNext f.geFirst skip
+        (openFile (finishFile (frameBlocks ps)
+          (fst ++ storeBytes (writerStore (frameAddrs (keyBlocks (build blockLen m)) ps)) ++ u64enc fst.length)
+          numTerms version)) k
+      = some ((build blockLen m).termOrdOrNext k) ∧
+    fileTermOrd f.geFirst skip
+        (openFile (finishFile (frameBlocks ps)
+          (fst ++ storeBytes (writerStore (frameAddrs (keyBlocks (build blockLen m)) ps)) ++ u64enc fst.length)
+          numTerms version)) k
+      = some (termOrd m k) := by
+  have h1 := file_term_ord_or_next blockLen m hs f hf hkeys hmulti skip ps hlen hskip hpsz hok fst
+    numTerms version hfst0 hfst hdata hn hv k
+  refine ⟨h1, ?_⟩
+  unfold fileTermOrd
+  rw [h1, Option.map_some, ← refine_termOrd blockLen m hs k]
+  congr 1
+  unfold Dict.termOrd Dict.termOrdOrNext
+  cases ((build blockLen m).locateKey k).bind (build blockLen m).blockAt <;> rfl
+
+example : fileTermOrdOrNext (fun _ => some 1) id (openFile (finishFile (frameBlocks [[16, 7], [16, 9]])
+      ([1, 2, 3] ++ storeBytes [⟨7, 5, 1, 3, ⟨0, 0, 7⟩, [⟨1, 7, 14⟩], 14⟩] ++ u64enc 3) 2 3)) [9]
+    = some (.exact 1) ∧
+    fileTermOrd (fun _ => some 1) id (openFile (finishFile (frameBlocks [[16, 7], [16, 9]])
+      ([1, 2, 3] ++ storeBytes [⟨7, 5, 1, 3, ⟨0, 0, 7⟩, [⟨1, 7, 14⟩], 14⟩] ++ u64enc 3) 2 3)) [8]
+    = some none := by decide
+
+/-- `Dictionary::get` composed down to the BYTES of a whole written file with several blocks, as
+`C15_file_term_ord`: for every sorted map, block length, value codec (`skip` drops the value block
+of a payload, `vals` decodes it) and every FST meeting the stated contract, `get` on the bytes IS
+the specification `get m k`. -/
+theorem C15_file_get {V} (blockLen : Nat) (m : Assoc V) (hs : SortedMap m) (f : FstIndex)
+    (hf : FstContract f) (hkeys : f.keys = (build blockLen m).blocks.map (·.sep))
+    (hmulti : (build blockLen m).single = false)
+    (skip : List UInt8 → List UInt8) (vals : List UInt8 → List V) (ps : List (List UInt8))
+    (hlen : ps.length = (build blockLen m).blocks.length)
+    (hskip : ∀ (i : Nat) p b, ps[i]? = some p → (build blockLen m).blocks[i]? = some b →
+      skip p = encodeBlockKeys (keys b.entries) ∧ vals p = b.entries.map (·.2))
+    (hpsz : ∀ p ∈ ps, p ≠ [] ∧ p.length + 1 < 4294967296)
+    (hok : WriterStoreOk (frameAddrs (keyBlocks (build blockLen m)) ps))
+    (fst : List UInt8) (numTerms version : Nat)
+    (hfst0 : fst.length ≠ 0) (hfst : fst.length < 18446744073709551616)
+    (hdata : (frameBlocks ps).length < 18446744073709551616)
+    (hn : numTerms < 18446744073709551616) (hv : version < 4294967296) (k : Key) :
+    fileGet f.geFirst skip vals
+        (openFile (finishFile (frameBlocks ps)
+          (fst ++ storeBytes (writerStore (frameAddrs (keyBlocks (build blockLen m)) ps)) ++ u64enc fst.length)
+          numTerms version)) k
+      = some (SSTable.get m k) := by
+  rw [file_get blockLen m hs f hf hkeys hmulti skip vals ps hlen hskip hpsz hok fst numTerms version
+    hfst0 hfst hdata hn hv k, refine_get blockLen m hs k]
+
+/-- the payload hypotheses are met by the monotonic-u64 codec: value block `serU64Mono`, then the
+front-coded keys -/
+theorem C15_file_get_u64_payload (vs : List Nat) (ksb : List Key) (hv : MonoFrom 0 vs) :
+    (loadU64Mono (serU64Mono vs ++ encodeBlockKeys ksb)).2 = encodeBlockKeys ksb ∧
+    (loadU64Mono (serU64Mono vs ++ encodeBlockKeys ksb)).1 = vs := by
+  rw [loadU64Mono_ser vs _ hv]
+  exact ⟨rfl, rfl⟩
+
+example : fileGet (fun _ => some 1) id (fun p => (decodeBlockKeys p).map (fun _ => ()))
+      (openFile (finishFile (frameBlocks [[16, 7], [16, 9]])
+        ([1, 2, 3] ++ storeBytes [⟨7, 5, 1, 3, ⟨0, 0, 7⟩, [⟨1, 7, 14⟩], 14⟩] ++ u64enc 3) 2 3)) [9]
+    = some (some ()) := by decide
+
+/-- the remaining layout: files with at most one block carry no index (`fst_len = 0`,
+`SSTableIndexV3Empty`). `get_block_with_key` is the one pseudo-block whatever an FST would say, and
+`term_ord_or_next` / `get` on the bytes equal the block model, hence (for `get`) the specification.
+Together with `C15_file_term_ord` / `C15_file_get` every dictionary the writer can produce is
+covered. -/
+theorem C15_small_file_key_ops {V} (blockLen : Nat) (m : Assoc V) (hs : SortedMap m)
+    (hsingle : (build blockLen m).single = true)
+    (geFirst : Key → Option Nat) (skip : List UInt8 → List UInt8) (vals : List UInt8 → List V)
+    (ps : List (List UInt8))
+    (hlen : ps.length = (build blockLen m).blocks.length)
+    (hskip : ∀ (i : Nat) p b, ps[i]? = some p → (build blockLen m).blocks[i]? = some b →
+      skip p = encodeBlockKeys (keys b.entries) ∧ vals p = b.entries.map (·.2))
+    (hpsz : ∀ p ∈ ps, p ≠ [] ∧ p.length + 1 < 4294967296)
+    (numTerms version : Nat)
+    (hn : numTerms < 18446744073709551616) (hv : version < 4294967296) (k : Key) :
+    fileTermOrdOrNext geFirst skip (openFile (finishFile (frameBlocks ps) (u64enc 0) numTerms version)) k
+      = some ((build blockLen m).termOrdOrNext k) ∧
+    fileGet geFirst skip vals (openFile (finishFile (frameBlocks ps) (u64enc 0) numTerms version)) k
+      = some (SSTable.get m k) := by
+  have h := small_file_key_ops blockLen m hs hsingle geFirst skip vals ps hlen hskip hpsz numTerms version hn hv k
+  refine ⟨h.1, ?_⟩
+  rw [h.2, refine_get blockLen m hs k]
+
+example : fileTermOrdOrNext (fun _ => none) id (openFile (finishFile (frameBlocks [[16, 7, 17, 9]]) (u64enc 0) 2 3)) [7, 9]
+      = some (.exact 1) ∧
+    fileTermOrdOrNext (fun _ => none) id (openFile (finishFile (frameBlocks []) (u64enc 0) 0 3)) [7]
+      = some (.next 0) := by decide
+
+/-- instance for the real monotonic-u64 codec: payload = `serU64Mono values ++ front-coded keys`,
+`skip`/`vals` = the two halves of `loadU64Mono`. `get` on the bytes of the written file is the
+specification, for every sorted map whose values are non-decreasing inside each block. -/
+theorem C15_u64_file_get (blockLen : Nat) (m : Assoc Nat) (hs : SortedMap m)
+    (hmono : ∀ b ∈ (build blockLen m).blocks, MonoFrom 0 (b.entries.map (·.2)))
+    (f : FstIndex) (hf : FstContract f) (hkeys : f.keys = (build blockLen m).blocks.map (·.sep))
+    (hmulti : (build blockLen m).single = false)
+    (hsize : ∀ b ∈ (build blockLen m).blocks,
+      (serU64Mono (b.entries.map (·.2)) ++ encodeBlockKeys (keys b.entries)).length + 1 < 4294967296)
+    (hok : WriterStoreOk (frameAddrs (keyBlocks (build blockLen m))
+      ((build blockLen m).blocks.map (fun b => serU64Mono (b.entries.map (·.2)) ++ encodeBlockKeys (keys b.entries)))))
+    (fst : List UInt8) (numTerms version : Nat)
+    (hfst0 : fst.length ≠ 0) (hfst : fst.length < 18446744073709551616)
+    (hdata : (frameBlocks ((build blockLen m).blocks.map
+      (fun b => serU64Mono (b.entries.map (·.2)) ++ encodeBlockKeys (keys b.entries)))).length < 18446744073709551616)
+    (hn : numTerms < 18446744073709551616) (hv : version < 4294967296) (k : Key) :
+    fileGet f.geFirst (fun p => (loadU64Mono p).2) (fun p => (loadU64Mono p).1)
+        (openFile (finishFile (frameBlocks ((build blockLen m).blocks.map
+            (fun b => serU64Mono (b.entries.map (·.2)) ++ encodeBlockKeys (keys b.entries))))
+          (fst ++ storeBytes (writerStore (frameAddrs (keyBlocks (build blockLen m))
+            ((build blockLen m).blocks.map
+              (fun b => serU64Mono (b.entries.map (·.2)) ++ encodeBlockKeys (keys b.entries))))) ++ u64enc fst.length)
+          numTerms version)) k
+      = some (SSTable.get m k) := by
+  have hent : ∀ b ∈ (build blockLen m).blocks, b.entries ≠ [] := by
+    intro b hb
+    have hmem : b.entries ∈ (build blockLen m).blocks.map (·.entries) := List.mem_map.mpr ⟨b, hb, rfl⟩
+    rw [build_blocks_eq, mkBlocks_entries] at hmem
+    exact cutBlocks_nonempty _ blockLen [] 0 [] m _ hmem
+  apply C15_file_get blockLen m hs f hf hkeys hmulti _ _ _ (by simp) ?_ ?_ hok fst numTerms version
+    hfst0 hfst hdata hn hv k
+  · intro i p b hp hb
+    rw [List.getElem?_map, hb] at hp
+    simp only [Option.map_some, Option.some.injEq] at hp
+    subst hp
+    exact C15_file_get_u64_payload _ _ (hmono b (List.mem_of_getElem? hb))
+  · intro p hp
+    obtain ⟨b, hb, rfl⟩ := List.mem_map.mp hp
+    refine ⟨?_, hsize b hb⟩
+    intro e
+    have hk := encodeEntries_length_ge [] (keys b.entries)
+    have hl : (serU64Mono (b.entries.map (·.2)) ++ encodeBlockKeys (keys b.entries)).length = 0 := by rw [e]; rfl
+    unfold encodeBlockKeys at hl
+    rw [List.length_append] at hl
+    have : (keys b.entries).length = 0 := by omega
+    have : b.entries.length = 0 := by simpa [keys] using this
+    exact hent b hb (List.eq_nil_of_length_eq_zero this)
+
+example : MonoFrom 0 [3, 3, 10] ∧
+    (loadU64Mono (serU64Mono [3, 3, 10] ++ encodeBlockKeys [[1], [2], [3]])).1 = [3, 3, 10] ∧
+    (loadU64Mono (serU64Mono [3, 3, 10] ++ encodeBlockKeys [[1], [2], [3]])).2 = encodeBlockKeys [[1], [2], [3]] :=
+  ⟨by simp [MonoFrom], (C15_file_get_u64_payload _ _ (by simp [MonoFrom])).2,
+   (C15_file_get_u64_payload _ _ (by simp [MonoFrom])).1⟩
 
 /-! ## non-vacuity -/
 
